@@ -352,3 +352,10 @@ func raceText(dir, sig string) string {
 	}
 	return ""
 }
+
+// RaceReports is raceReports for drivers that run a race-instrumented helper
+// of their own with GORACE=log_path=<dir>/race.
+func RaceReports(dir string) ([]string, int) { return raceReports(dir) }
+
+// RaceText returns the first report block with the given signature.
+func RaceText(dir, sig string) string { return raceText(dir, sig) }
